@@ -1165,3 +1165,79 @@ def decide(log, server, modname, pid_, verdict, key, replay, candidates=({},)):
             return False
     log.inconclusive.append("%s/%s: solver answered %s and no candidate reproduced against the real code" % (log.case, verdict.what, verdict.status))
     return False
+
+
+# ---------------------------------------------------------------------------
+# translator validation support: run the model along the path of the builders' default point
+# ---------------------------------------------------------------------------
+class PointPath:
+    """path manager deciding every branch by evaluating its condition at a concrete point"""
+
+    def __init__(self, frac, subs):
+        self.frac, self.subs, self.pc = frac, subs, []
+
+    def decide(self, b):
+        if hasattr(b, "e"):
+            r = z3.is_true(z3.simplify(z3.substitute(b.e, *self.subs)))
+        else:
+            val = S.NumEnv(self.frac).value(b.p)
+            r = {"<0": val < 0, "<=0": val <= 0, ">0": val > 0, ">=0": val >= 0, "==0": val == 0, "!=0": val != 0}[b.rel]
+        self.pc.append(b if r else b.negate())
+        return bool(r)
+
+
+class AtDefaultPoint:
+    """with AtDefaultPoint(flavour) as pt:  pt.mk makes symbolic leaves, every branch is decided at the leaves'
+    default values, pt.ev(leaf) evaluates a leaf (or an expression of leaves) at that point."""
+
+    def __init__(self, flavour="py"):
+        self.flavour = flavour
+
+    def __enter__(self):
+        ctx.reset()
+        frac, subs = {}, []
+        self.frac, self.subs = frac, subs
+
+        class _Mk(SymMk):
+            def _reg(self, name):
+                kind, default = self.defaults[name]
+                if kind == "f":
+                    frac[name] = Fraction(default)
+                elif kind == "i":
+                    subs.append((z3.Int(name), z3.IntVal(int(default))))
+                else:
+                    subs.append((z3.Bool(name), z3.BoolVal(bool(default))))
+
+            def float(self, name, default=None, positive=False, tag=None):
+                x = SymMk.float(self, name, default, positive, tag)
+                self._reg(name)
+                return x
+
+            def int(self, name, default=None, lo=None, hi=None, tag=None):
+                x = SymMk.int(self, name, default, lo, hi, tag)
+                self._reg(name)
+                return x
+
+            def bool(self, name, default=None, tag=None):
+                x = SymMk.bool(self, name, default, tag)
+                self._reg(name)
+                return x
+
+        self.mk = _Mk(self.flavour)
+        ctx.path = PointPath(frac, subs)
+        return self
+
+    def __exit__(self, *a):
+        ctx.path = None
+        return False
+
+    def ev(self, leaf):
+        if isinstance(leaf, IL):
+            return leaf.e if isinstance(leaf.e, int) else int(str(z3.simplify(z3.substitute(leaf.e, *self.subs))))
+        if isinstance(leaf, BL):
+            return leaf.e if isinstance(leaf.e, bool) else z3.is_true(z3.simplify(z3.substitute(leaf.e, *self.subs)))
+        if isinstance(leaf, NanLeaf):
+            return float("nan")
+        if isinstance(leaf, SR):
+            return float(S.NumEnv(self.frac).value(leaf))
+        return leaf
